@@ -426,6 +426,45 @@ struct MpSession : public vw::Session {
     return out;
   }
 
+  // observation of all three trees without following any endorsement pointer
+  std::string safeObserve(Instance& I) {
+    vw::Obs o;
+    auto& t = I.tree;
+    for (auto* i : t.getBlocks())
+      o.add("ALT " + reg->nameOf(i->getHash()) + " h=" + std::to_string(i->getHeight()) + " st=" +
+            std::to_string(i->getStatus()) + (i->finalized ? " F" : "") + vw::plIds(*reg, *i));
+    std::vector<std::string> tips;
+    for (auto* x : t.getTips()) tips.push_back(reg->nameOf(x->getHash()));
+    std::sort(tips.begin(), tips.end());
+    std::string s = "ALT tips";
+    for (auto& x : tips) s += " " + x;
+    o.add(s);
+    o.add("ALT best " + reg->nameOf(t.getBestChain().tip()->getHash()));
+    for (auto* i : t.vbk().getBlocks()) {
+      std::string l = "VBK " + reg->nameOf(i->getHash()) + " h=" + std::to_string(i->getHeight()) + " st=" +
+                      std::to_string(i->getStatus()) + " rc=" + std::to_string(i->refCount()) + " vtbs=[";
+      for (auto& id : i->template getPayloadIds<VTB>()) l += idname(*reg, id) + ",";
+      o.add(l + "]");
+    }
+    o.add("VBK best " + reg->nameOf(t.vbk().getBestChain().tip()->getHash()));
+    tips.clear();
+    for (auto* x : t.vbk().getTips()) tips.push_back(reg->nameOf(x->getHash()));
+    std::sort(tips.begin(), tips.end());
+    s = "VBK tips";
+    for (auto& x : tips) s += " " + x;
+    o.add(s);
+    for (auto* i : t.btc().getBlocks()) {
+      auto refs = i->getRefs();
+      std::sort(refs.begin(), refs.end());
+      std::string l = "BTC " + reg->nameOf(i->getHash()) + " h=" + std::to_string(i->getHeight()) + " st=" +
+                      std::to_string(i->getStatus()) + " refs=[";
+      for (auto x : refs) l += std::to_string(x) + ",";
+      o.add(l + "]");
+    }
+    o.add("BTC best " + reg->nameOf(t.btc().getBestChain().tip()->getHash()));
+    return o.str();
+  }
+
   static std::string firstDiff(const std::string& before, const std::string& after) {
     std::istringstream a(before), b(after);
     std::string la, lb;
@@ -599,9 +638,14 @@ struct MpSession : public vw::Session {
     if (c == "gen") {
       std::set<std::string> must[3];
       mustConnect(I, must);
-      auto before = vw::observe(*reg, I.tree, vw::FULL);
+      bool isLoaded = false;
+      for (auto& kv : inst)
+        if (kv.second.get() == &I && loaded.count(kv.first)) isLoaded = true;
+      // on a loaded tree finalization deallocates ALT blocks and leaves their endorsement pointers in the VBK
+      // blocks of proof (observed: heap-use-after-free when they are read), so the endorsement lists are not read there
+      auto before = isLoaded ? safeObserve(I) : vw::observe(*reg, I.tree, vw::FULL);
       PopData P = mp.generatePopData();
-      auto after = vw::observe(*reg, I.tree, vw::FULL);
+      auto after = isLoaded ? safeObserve(I) : vw::observe(*reg, I.tree, vw::FULL);
       // the validity LEVEL (low three status bits) is a memo of what has been validated so far: applying the
       // temporary block may raise it (BLOCK_CAN_BE_APPLIED of a VBK fork block that was applied while the candidate
       // was compared); it must never be lowered. Everything else must be identical.
